@@ -2525,3 +2525,41 @@ mod utility_tests;
 
 #[cfg(test)]
 mod token_consolidation_tests;
+
+/// Verification hooks (feature `pasfmt_verif`): forwarding wrappers over plain data.
+#[cfg(feature = "pasfmt_verif")]
+pub mod verif_hooks_parser {
+    use super::*;
+
+    pub fn directive_passes(tokens: &[RawToken]) -> Vec<Vec<usize>> {
+        DirectiveTree::parse(tokens).passes().collect()
+    }
+
+    pub fn parse_file(tokens: &mut [RawToken]) -> Vec<LogicalLine> {
+        super::parse_file(tokens)
+    }
+
+    pub type PlainLine = (Option<LineParent>, u16, Vec<usize>, LogicalLineType);
+
+    /// Runs `consolidate_pass_lines` once per pass and returns the merged lines in index order.
+    pub fn consolidate_passes(passes: Vec<Vec<PlainLine>>) -> Vec<PlainLine> {
+        let mut lines = FxHashMap::default();
+        for pass in passes {
+            let pass_lines = pass
+                .into_iter()
+                .map(|(parent, level, tokens, line_type)| LocalLogicalLine {
+                    parent,
+                    level,
+                    tokens,
+                    line_type,
+                })
+                .collect();
+            consolidate_pass_lines(&mut lines, pass_lines);
+        }
+        lines
+            .into_iter()
+            .sorted_by_key(|&(_, index)| index)
+            .map(|(line, _)| (line.parent, line.level, line.tokens, line.line_type))
+            .collect()
+    }
+}
